@@ -163,6 +163,7 @@ def compare(ips, jps, legacy_load=False):
 
 def run(rep, tier):
     cx = Ctx(rep, "std")
+    rep.where_by_opcode = cx.opcode_where(cx.roles.jit())
     im = imodel.InterpModel(cx)
     jm = jitmodel.JitModel(cx)
     if not (im.ok and jm.ok):
